@@ -613,7 +613,8 @@ def _extract_encoding(headers, content):
     encoding = None
     content_type = headers.get('Content-Type', '').lower()
     if 'charset=' in content_type:
-        encoding = content_type.split('charset=')[-1]
+        # Other parameters may follow, e.g. `text/html; charset=utf-8; x=y`.
+        encoding = content_type.split('charset=')[-1].split(';')[0]
     if not encoding:
         meta_tag_match = META_TAG_PATTERN.search(content, endpos=2048)
         if meta_tag_match:
